@@ -49,6 +49,7 @@ def run_kani_part(pid, part, tier, seed, report):
         qualified, target_name=part.get('target', 'main'), jobs=part.get('jobs', 12),
         harness_timeout_s=part.get('timeout_' + tier, 600 if tier == 'quick' else 2400),
         full_checks=full, mem_gb=part.get('mem_gb', 14))
+    accept = part.get('labels') or [pid]     # assertion labels that count for this property in this part
     cands, incon = [], []
     if build_failed:
         incon.append('harness crate does not build against the current tree (see %s)' % log)
@@ -74,7 +75,7 @@ def run_kani_part(pid, part, tier, seed, report):
             if 'unwinding assertion' in desc or desc.startswith('UNDETERMINED'):
                 continue
             lp, key, text = classify(desc)
-            if lp == pid:
+            if lp in accept:
                 cands.append((q, key, desc))
             elif lp is None and owner == pid:
                 if part.get('ignore_unlabelled') and re.search(part['ignore_unlabelled'], desc + ' ' + loc):
@@ -83,7 +84,7 @@ def run_kani_part(pid, part, tier, seed, report):
             else:
                 report['other_property_failures'].append({'harness': q, 'check': desc})
     report['kani_wall_s'] += wall
-    n_lab = sum(res[q].labelled.get(pid, 0) for q in qualified)
+    n_lab = sum(res[q].labelled.get(l, 0) for q in qualified for l in accept)
     report['property_assertions'] = report.get('property_assertions', 0) + n_lab
     if n_lab == 0 and owner != pid and not part.get('no_labels'):
         incon.append('family %s: no reachable assertion labelled %s was checked (harness/label mismatch)' % (part['family'], pid))
